@@ -46,10 +46,31 @@ KIND_OPT = {
 INT_VAL = {"v1": 5, "v2": 0}
 
 
+HIST_DEFAULT = {"flag": ["F"], "int": ["d"], "list": ["dflt"], "paths": [], "files": [], "bool": ["T"]}
+# the real command line over several files observes the list kind through `disallowed_imports`: every tag a
+# section can write is spelled as an importable standard-library module, and every checked file imports them all
+TAG_MODULE = {
+    "cmd": "getopt", "f1.top": "sched", "f1.a": "quopri", "f1.ab": "colorsys", "f2.top": "netrc", "f2.a": "plistlib",
+    "f2.ab": "pyclbr", "f3.top": "shelve", "f3.a": "stringprep", "f3.ab": "tabnanny",
+}
+MODULE_TAG = {m: t for t, m in TAG_MODULE.items()}
+
+
 def _opt_name(case: dict) -> str:
     if case["kind"] == "bool":
         return BOOL_OPT[case["default"][0]]
+    if case["kind"] == "list" and case.get("_cli"):
+        return "disallowed_imports"
     return KIND_OPT[case["kind"]]
+
+
+def _views(case: dict) -> list[dict]:
+    """One view of the case per option kind it speaks about: the case itself, or -- for a case with a history
+    -- the case with `kind` replaced by every kind that is looked up (HistView of Config.tla)."""
+    if not case.get("lookups"):
+        return [case]
+    kinds = sorted({lk["kind"] for lk in case["lookups"]})
+    return [{**case, "kind": k, "default": HIST_DEFAULT[k]} for k in kinds]
 
 
 def _toml_value(case: dict, v: str, tag: str) -> str:
@@ -58,6 +79,8 @@ def _toml_value(case: dict, v: str, tag: str) -> str:
         return "true" if v == "v1" else "false"
     if k == "int":
         return str(INT_VAL[v])
+    if case.get("_cli") and k == "list":
+        tag = TAG_MODULE[tag]
     return json.dumps([tag] if v == "v1" else [])
 
 
@@ -75,7 +98,8 @@ def _section_items(case: dict, sec: dict, tag: str, bad: str | None) -> list[str
     items = []
     name = _opt_name(case)
     if sec["val"] in ("v1", "v2"):
-        items.append(f"{name} = {_toml_value(case, sec['val'], tag)}")
+        for view in _views(case):
+            items.append(f"{_opt_name(view)} = {_toml_value(view, sec['val'], tag)}")
     if sec.get("da"):
         items.append("disable_all = true")
     if bad == "unknown_key":
@@ -106,6 +130,8 @@ def write_files(case: dict, root: Path) -> Path:
         top_bad = bad if here and loc == "top" else None
         ova_bad = bad if here and loc == "ova" else None
         lines = _section_items(case, f["top"], f"f{i}.top", top_bad)
+        if case.get("_cli") and i == 1:
+            lines.append('import_paths = ["."]')
         if here and bad == "module_at_top":
             lines.append('module = "a"')
         ovs = []
@@ -307,34 +333,81 @@ def _encode(case: dict, cls: Any, val: Any, root: Path) -> list[str]:
     return out
 
 
-def real_lookup(case: dict, root: Path) -> tuple[list[str], list[list[str]]]:
+def _snapshot(raw: Any, names: list[str]) -> list[Any]:
+    """A copy of everything a lookup reads: the stored instances of the options and the class defaults."""
+    from pyanalyze.options import ConfigOption
+
+    def copy(v: Any) -> Any:
+        return list(v) if isinstance(v, (list, tuple)) else v
+
+    snap = []
+    for name in names:
+        snap.append([(copy(i.value), i.applicable_to, i.from_command_line, i.priority) for i in raw.options.get(name, [])])
+        snap.append(copy(ConfigOption.registry[name].default_value))
+    return snap
+
+
+def real_history(case: dict, root: Path) -> tuple[list[Any], list[Any], bool]:
+    """ONE real Options object for the case; the lookups of case.lookups are performed on it in order."""
+    from pyanalyze.options import ConfigOption, InvalidConfigOption, Options
+
+    views = {v["kind"]: v for v in _views(case)}
+    main = write_files(case, root)
+    try:
+        inst = []
+        if case["cmd"] != "none":
+            for v in views.values():
+                inst.append(ConfigOption.registry[_opt_name(v)](_cmd_value(v), from_command_line=True))
+        raw = Options.from_option_list(inst, config_file_path=main)
+        names = [_opt_name(v) for v in views.values()]
+        before = _snapshot(raw, names)
+        real = []
+        for lk in case["lookups"]:
+            v = views[lk["kind"]]
+            cls = ConfigOption.registry[_opt_name(v)]
+            # for_module shares the option table (options.py:288), as the checker does for every module
+            real.append(_encode(v, cls, raw.for_module(tuple(lk["q"])).get_value_for(cls), root))
+        mutated = _snapshot(raw, names) != before
+    except InvalidConfigOption:
+        return [["error"]], [], False
+    except BaseException as exc:
+        return [["raised", type(exc).__name__]], [], False
+    return real, [], mutated
+
+
+def real_lookup(case: dict, root: Path) -> tuple[list[Any], list[list[str]], bool]:
     from pyanalyze.error_code import ErrorCode
     from pyanalyze.options import ConfigOption, InvalidConfigOption
 
+    if case.get("lookups"):
+        return real_history(case, root)
     name = _opt_name(case)
     cls = ConfigOption.registry[name]
     main = write_files(case, root)
     try:
         raw = _assemble(case, root, main)
+        before = _snapshot(raw, [name])
+        # recorded BEFORE the lookup: what the command-line assembly created
+        cmdinsts = [_encode(case, cls, i.value, root) for i in raw.options.get(name, []) if i.from_command_line]
         opts = raw.for_module(tuple(case["q"]))
         if case["kind"] == "bool":
             val = opts.is_error_code_enabled(getattr(ErrorCode, name))
             val2 = opts.get_value_for(cls)
             if val != val2:
-                return ["inconsistent", repr(val), repr(val2)], []
+                return ["inconsistent", repr(val), repr(val2)], [], False
         else:
             val = opts.get_value_for(cls)
+        mutated = _snapshot(raw, [name]) != before
     except InvalidConfigOption:
-        return ["error"], []
+        return ["error"], [], False
     except core.MachineryError:
         raise
     except BaseException as exc:  # any other exception (or exit) is not "a configuration error"
-        return ["raised", type(exc).__name__], []
-    cmdinsts = [_encode(case, cls, i.value, root) for i in raw.options.get(name, []) if i.from_command_line]
-    return _encode(case, cls, val, root), cmdinsts
+        return ["raised", type(exc).__name__], [], False
+    return _encode(case, cls, val, root), cmdinsts, mutated
 
 
-def _observe_chunk(cases: list[dict]) -> list[tuple[list[str], list[list[str]]]]:
+def _observe_chunk(cases: list[dict]) -> list[tuple[list[Any], list[list[str]], bool]]:
     root = core.new_dir("c18-files").resolve()
     out = []
     for case in cases:
@@ -352,7 +425,8 @@ def observe(cases: list[dict]) -> list[dict]:
     chunks = [cases[i : i + 400] for i in range(0, len(cases), 400)]
     parts = core.pmap(_observe_chunk, chunks, chunk=1)
     results = [r for part in parts for r in part]
-    return [{"tid": tid, "case": c, "real": real, "cmdinsts": ci} for tid, (c, (real, ci)) in enumerate(zip(cases, results))]
+    return [{"tid": tid, "case": c, "real": real, "cmdinsts": ci, "mutated": mut, "asset": False}
+            for tid, (c, (real, ci, mut)) in enumerate(zip(cases, results))]
 
 
 # ------------------------------------------------------------------------------------------------
@@ -380,7 +454,7 @@ def _observe_proc(case: dict) -> dict:
     cmd = [sys.executable, "-m", "pyanalyze", "--config-file", str(main), "--display-options", *argv_tokens(case)]
     proc = subprocess.run(cmd, cwd=root, env=env, stdout=subprocess.PIPE, stderr=subprocess.PIPE, text=True, timeout=600)
     shutil.rmtree(root, ignore_errors=True)
-    o = {"case": case, "src": "proc", "cmdinsts": []}
+    o = {"case": case, "src": "proc", "cmdinsts": [], "mutated": False, "asset": False}
     if proc.returncode != 0:
         last = (proc.stderr.strip().splitlines() or ["?"])[-1]
         o["real"] = ["error"] if "InvalidConfigOption" in last else ["raised", last[:80]]
@@ -435,7 +509,7 @@ def _case_key(case: dict) -> str:
 
 
 def _nontrivial(c: dict) -> bool:
-    return len(c["files"]) > 1 or c["bad"] != "none" or c["cmd"] != "none" or bool(c["argv"])
+    return len(c["files"]) > 1 or c["bad"] != "none" or c["cmd"] != "none" or bool(c["argv"]) or bool(c["lookups"])
 
 
 def judge_obs(check: core.Check, obs: list[dict], label: str) -> dict[Any, list[str]]:
@@ -450,7 +524,8 @@ def judge_obs(check: core.Check, obs: list[dict], label: str) -> dict[Any, list[
             check.nontrivial(_case_key(c))
         for v in vs:
             if v.startswith("viol:"):
-                check.violation(_case_key(c), v[5:], {"case": c, "real": o["real"], "cmdinsts": o["cmdinsts"], "source": label})
+                check.violation(_case_key(c), v[5:], {"case": c, "real": o["real"], "cmdinsts": o["cmdinsts"],
+                                                      "mutated": o["mutated"], "source": label})
             elif v.startswith("drift:"):
                 check.drift({"case": c, "real": o["real"], "cmdinsts": o["cmdinsts"], "what": v})
             else:
@@ -473,6 +548,7 @@ def _defaults(case: dict) -> dict:
     c.setdefault("argv", [])
     c.setdefault("cfgsrc", "arg")
     c.setdefault("layout", "flat")
+    c.setdefault("lookups", [])
     return c
 
 
